@@ -29,7 +29,7 @@ func init() {
 		"iter-reseek/parked-key-deleted", "iter-reseek/node-split", "iter-reseek/node-merged-away",
 		"iter-reseek/root-collapse", "iter-reseek/tree-emptied", "iter-parked-on-zero-key",
 		"iter-yields-key-inserted-beyond", "iter-exhausted-then-sticky", "iter-gen-wrap", "gc-retention-checked", "lookup-work-checked",
-		"comparator-returns-extreme-ints",
+		"comparator-returns-extreme-ints", "bounds/one-key-range",
 	}
 }
 
@@ -604,6 +604,28 @@ func (w *treeW) pickPos() int {
 	return r.Choose(w.P, "pos")
 }
 
+// pickBounds picks a pair of bounds: mostly two independent ones (inverted and empty intervals
+// included), and now and then the narrow shapes an implementation may single out - both bounds on
+// the same key (the one-key range when both are Included), or on neighbouring positions.
+func (w *treeW) pickBounds() (tBound, tBound) {
+	lo, hi := w.pickBound(), w.pickBound()
+	switch w.r.Choose(12, "narrow-bounds") {
+	case 10:
+		if lo.kind != 0 {
+			hi = tBound{kind: 1 + w.r.Choose(2, "narrow-kind"), key: w.keyOf(w.posOf(lo.key), w.r.Choose(4, "rep"))}
+			if w.r.Choose(2, "one-key-range") == 1 {
+				lo.kind, hi.kind = 1, 1
+				w.r.Probe("bounds/one-key-range")
+			}
+		}
+	case 11:
+		if lo.kind != 0 && w.posOf(lo.key)+1 < w.P {
+			hi = tBound{kind: 1 + w.r.Choose(2, "narrow-kind"), key: w.keyOf(w.posOf(lo.key)+1, w.r.Choose(4, "rep"))}
+		}
+	}
+	return lo, hi
+}
+
 func (w *treeW) pickBound() tBound {
 	k := w.r.Choose(3, "boundkind")
 	if k == 0 {
@@ -799,7 +821,7 @@ func (w *treeW) sideOp() {
 		w.doFirstLast(h, true)
 	case 6, 7:
 		rev := r.Choose(2, "rev") == 1
-		lo, hi := w.pickBound(), w.pickBound()
+		lo, hi := w.pickBounds()
 		useIt := lo.kind == 0 && hi.kind == 0 && !rev && r.Choose(2, "iterate") == 0
 		w.doScan(h, useIt, lo, hi, rev, 16+r.Choose(120, "scanlimit"))
 	case 8:
@@ -1403,7 +1425,7 @@ func (w *treeW) iterNew(h int) {
 	}
 	r := w.r
 	it := &tIter{rev: r.Choose(2, "rev") == 1, insertedBeyond: -1}
-	it.lo, it.hi = w.pickBound(), w.pickBound()
+	it.lo, it.hi = w.pickBounds()
 	useIt := it.lo.kind == 0 && it.hi.kind == 0 && !it.rev && r.Choose(2, "iterate") == 0
 	w.noteBounds(it.lo, it.hi)
 	it.minPos, it.maxPos = w.interval(it.lo, it.hi)
